@@ -32,6 +32,7 @@ import Sudachi.Model.RecycleIO
 import Sudachi.Model.Total
 import Sudachi.Model.TotalIO
 import Sudachi.Model.Stages
+import Sudachi.Model.RecycleTotal
 /-! Line protocol dispatcher: one case per line in, one answer per line out. -/
 namespace Driver
 
@@ -62,7 +63,8 @@ def answer (line : String) : String :=
     | "C05" => Codec.handle rest
     | "C04" => Trie.handle op rest
     | "C06" => BuildLoad.handle rest
-    | "C10" => if op = "pysess".toList then Recycle.IO.handlePy rest else Recycle.IO.handle rest
+    | "C10" => if op = "pysess".toList then Recycle.IO.handlePy rest
+      else if op = "hpipe".toList then RecycleTotal.handleHPipe rest else Recycle.IO.handle rest
     | "C03" => TotalIO.handle op rest
     | _ => "bad-op"
   | _ => "bad-op"
